@@ -102,6 +102,41 @@ pub fn decode(b: &[u8]) -> Result<RefMsg, RefErr> {
     Ok(RefMsg { class, method, tid, attrs, exposed })
 }
 
+
+/// Every cause a refusal of `b` may truthfully name (C02: "a rejection names its cause"): the statement does not say which one
+/// is reported when several apply, nor in which order independent checks run, so the oracle accepts any of them.
+pub fn causes(b: &[u8]) -> Vec<RefErr> {
+    let mut out = vec![];
+    if b.len() < 20 { out.push(RefErr::Truncated { expected: 20, actual: b.len() }); return out; }
+    let stun = b[0] & 0xc0 == 0 && b[4..8] == [0x21, 0x12, 0xa4, 0x42];
+    if !stun { out.push(RefErr::NotStun); }
+    let declared = be16(b, 2) as usize;
+    if declared + 20 > b.len() { out.push(RefErr::Truncated { expected: declared + 20, actual: b.len() }); }
+    if declared + 20 < b.len() { out.push(RefErr::Excess); }
+    if !stun || declared + 20 != b.len() { return out; }
+    let mut o = 20;
+    let (mut seen_mi, mut seen_mi256, mut seen_fp) = (false, false, false);
+    while o < b.len() {
+        if o + 4 > b.len() { out.push(RefErr::TruncatedInterior); break; }
+        let ty = be16(b, o);
+        let len = be16(b, o + 2) as usize;
+        let ending = ty == MI || ty == MI256 || ty == FP;
+        if seen_fp { out.push(RefErr::AfterFingerprint(ty)); }
+        if (seen_mi || seen_mi256) && !ending { out.push(RefErr::AfterIntegrity(ty)); }
+        if (ty == MI && seen_mi) || (ty == MI256 && seen_mi256) { out.push(RefErr::AfterIntegrity(ty)); }
+        if o + 4 + padded(len) > b.len() { out.push(RefErr::TruncatedInterior); break; }
+        if ty == FP {
+            if len != 4 { out.push(RefErr::FingerprintMalformed); }
+            else if b[o + 4..o + 8] != fingerprint_value(&b[..o], o + 8) { out.push(RefErr::FingerprintMismatch); }
+        }
+        seen_mi |= ty == MI;
+        seen_mi256 |= ty == MI256;
+        seen_fp |= ty == FP;
+        o += 4 + padded(len);
+    }
+    out
+}
+
 /// reference serialisation of header + TLVs (no sealing)
 pub fn encode(class: u8, method: u16, tid: u128, attrs: &[(u16, Vec<u8>)]) -> Vec<u8> {
     let mut body = vec![];
